@@ -24,6 +24,9 @@ var c15Progs = []struct{ name, src string }{
 	{"nested", "func g(x) {\n  return x * 2\n}\nfunc f(x) {\n  let z := g(x)\n  return z + 1\n}\nr := f(2)"},
 	{"ifelse", "a := 2\nif a > 1 {\n  b := 1\n} else {\n  b := 2\n}\nlog(a, b)"},
 	{"error", "a := 1\nb := a + \"x\"\nc := 2"},
+	// 12 lines, so that line numbers that are decimal prefixes of one another
+	// exist (1 / 10 / 12); only used by the breakpoint-edit scenarios
+	{"long", "a := 1\nb := 2\nc := 3\nd := 4\ne := 5\nf := 6\ng := 7\nh := 8\ni := 9\nj := 10\nk := 11\nl := a + k"},
 }
 
 func c15Lines(src string) int { return strings.Count(src, "\n") + 1 }
@@ -84,11 +87,12 @@ func (v *visitCounter) VisitStepOutState(node *parser.ASTNode, vs parser.Scope, 
 // c15Run performs one reference run and one debugged run of a configuration
 // and returns the list of problems found.
 type c15Cfg struct {
-	prog   int
-	breaks []int    // lines with an active breakpoint
-	script []string // commands for successive suspensions (then: resume)
-	stop   bool     // StopThreads at the first suspension instead of a continue
+	prog           int
+	breaks         []int    // lines with an active breakpoint
+	script         []string // commands for successive suspensions (then: resume)
+	stop           bool     // StopThreads at the first suspension instead of a continue
 	noBreakOnError bool
+	edits          []string // breakpoint commands issued after the initial ones
 }
 
 func (c c15Cfg) String() string {
@@ -99,6 +103,8 @@ type c15Result struct {
 	probs     []string
 	suspLines []int
 	nsusp     int
+	// the breakpoint table as reported by status after the edits
+	breakStatus string
 }
 
 func c15Run(c c15Cfg) *c15Result {
@@ -129,6 +135,16 @@ func c15Run(c c15Cfg) *c15Result {
 	for _, l := range c.breaks {
 		if _, err := dbg.HandleInput(fmt.Sprintf("break v:%d", l)); err != nil {
 			r.probs = append(r.probs, "break command failed: "+err.Error())
+		}
+	}
+	for _, e := range c.edits {
+		if _, err := dbg.HandleInput(e); err != nil {
+			r.probs = append(r.probs, "breakpoint command failed: "+e+": "+err.Error())
+		}
+	}
+	if c.edits != nil {
+		if st, err := dbg.HandleInput("status"); err == nil {
+			r.breakStatus = fmt.Sprint(st.(map[string]interface{})["breakpoints"])
 		}
 	}
 	ast, err := parser.ParseWithRuntime("v", src, en.erp)
@@ -319,6 +335,9 @@ func init() {
 	// fresh objects; an Engine-B style enumeration inside the scheduler)
 	for pi := range c15Progs {
 		pi := pi
+		if c15Progs[pi].name == "long" {
+			continue
+		}
 		register(&Scenario{Prop: "C15", Name: "bulk-" + c15Progs[pi].name, Quick: 0, Thor: 0, FreeQuick: -1, FreeThor: -1, Horizon: 50000000,
 			Desc: "program " + c15Progs[pi].name + ": every breakpoint subset (<= 2 lines quick, <= 3 thorough) x every command script of length <= 2 (3 thorough) over {resume, stepin, stepover, stepout}, plus stop-all variants, under the default schedule; differential oracle against the undebugged run and the line trace",
 			Make: func() (func(), func(e *vsched.Exec) (string, *vsched.Violation)) {
@@ -441,4 +460,104 @@ func init() {
 			}})
 	}
 	_ = strconv.Itoa
+}
+
+// ---------------------------------------------------------------------------
+// breakpoint edit histories: "setting, disabling or removing any breakpoints".
+// The reference model of the table is a map; the thread must suspend exactly at
+// the lines the model says are active.
+
+var c15EditCmds = func() []string {
+	var out []string
+	for _, l := range []int{1, 2, 10, 12} {
+		out = append(out, fmt.Sprintf("break v:%d", l), fmt.Sprintf("rmbreak v:%d", l), fmt.Sprintf("disablebreak v:%d", l))
+	}
+	// whole-source removal, and a second source whose name has "v" as a prefix
+	return append(out, "rmbreak v", "break vv:1", "rmbreak vv")
+}()
+
+func c15EditModel(edits []string) (table map[string]bool, active []int) {
+	table = map[string]bool{}
+	for _, e := range edits {
+		f := strings.Fields(e)
+		switch {
+		case f[0] == "break":
+			table[f[1]] = true
+		case f[0] == "disablebreak":
+			table[f[1]] = false
+		case f[0] == "rmbreak" && strings.Contains(f[1], ":"):
+			delete(table, f[1])
+		case f[0] == "rmbreak":
+			for k := range table {
+				if strings.Split(k, ":")[0] == f[1] {
+					delete(table, k)
+				}
+			}
+		}
+	}
+	for k, on := range table {
+		var l int
+		if on && strings.HasPrefix(k, "v:") {
+			fmt.Sscanf(k[2:], "%d", &l)
+			active = append(active, l)
+		}
+	}
+	sort.Ints(active)
+	return
+}
+
+func init() {
+	prog := -1
+	for i := range c15Progs {
+		if c15Progs[i].name == "long" {
+			prog = i
+		}
+	}
+	register(&Scenario{Prop: "C15", Name: "bulk-breakpoint-edits", Quick: 0, Thor: 0, FreeQuick: -1, FreeThor: -1, Horizon: 50000000,
+		Desc: "12-line program: every history of <= 2 (thorough 3) breakpoint commands over {break, rmbreak, disablebreak} x lines {1, 2, 10, 12} + {rmbreak v, break vv:1, rmbreak vv}; the table reported by status must equal the reference map and the thread must suspend (break-on-error off, resume only) exactly at the lines the reference says are active; differential oracle against the undebugged run",
+		Make: func() (func(), func(e *vsched.Exec) (string, *vsched.Violation)) {
+			var probs []string
+			cfgs := 0
+			body := func() {
+				probs = nil
+				cfgs = 0
+				trace := c15LineTrace(prog)
+				depth := 2
+				if tierThorough() {
+					depth = 3
+				}
+				var rec func(h []string)
+				rec = func(h []string) {
+					cfg := c15Cfg{prog: prog, edits: append([]string{}, h...), noBreakOnError: true}
+					r := c15Run(cfg)
+					cfgs++
+					table, active := c15EditModel(h)
+					for _, p := range r.probs {
+						probs = append(probs, p+fmt.Sprintf(" [breakpoint commands %q]", h))
+					}
+					if want := fmt.Sprint(table); r.breakStatus != want {
+						probs = append(probs, fmt.Sprintf("breakpoint table after %q is %s, expected %s", h, r.breakStatus, want))
+					}
+					if want := c15Expected(trace, active); len(r.probs) == 0 && fmt.Sprint(want) != fmt.Sprint(r.suspLines) {
+						probs = append(probs, fmt.Sprintf("after breakpoint commands %q the thread suspended at lines %v, expected %v", h, r.suspLines, want))
+					}
+					if len(h) == depth {
+						return
+					}
+					for _, c := range c15EditCmds {
+						rec(append(h, c))
+					}
+				}
+				rec([]string{})
+				vsched.Logf("configurations=%d", cfgs)
+			}
+			chk := c15Check(func() []string { return probs })
+			return body, func(e *vsched.Exec) (string, *vsched.Violation) {
+				o, v := chk(e)
+				if v != nil && strings.Contains(v.Key, "breakpoint") {
+					v.Key = "breakpoint bookkeeping differs from the reference table"
+				}
+				return fmt.Sprintf("%s configurations=%d", o, cfgs), v
+			}
+		}})
 }
